@@ -11,7 +11,7 @@
    oracle on every fuzz case (family `fuzz`), and there is no theorem about it here. *)
 From Coq Require Import List Arith NArith ZArith Bool Strings.Byte Lia ZifyBool.
 From Coq Require Strings.String.
-From DX Require Import Bytes Res Codec Text Sections Header Stream Json Reader StreamFacts.
+From DX Require Import Bytes Res Codec Text Sections Header Stream Json Reader StreamFacts Writer Dom.
 From DXGen Require GenSections GenText GenCodecs.
 Import ListNotations.
 Import String.StringSyntax.
@@ -533,7 +533,8 @@ Proof.
       destruct F as [[F1 [[F2 F3] F4]] F5]. repeat split; auto. congruence.
     + right; right. rewrite !andb_true_iff, negb_true_iff, Nat.leb_le in F.
       destruct F as [[F1 F2] F3]. unfold depth. rewrite C.
-      repeat split; auto; try lia.
+      split; [reflexivity|]. split; [exact F2|]. split; [exact F1|].
+      split; [clear - F3 Hd Hp; lia|]. split; [exact Hl|]. split; [congruence|]. split.
       * intros E. apply beq_true in E. fold sec_change in E. subst id. congruence.
       * intros _ E. apply beq_true in E. fold sec_file in E. subst id. congruence.
 Qed.
@@ -735,4 +736,169 @@ Proof.
   - right; left; eauto.
   - right; right. destruct T; subst; auto.
   - contradiction.
+Qed.
+
+(* ------------------------------------------------------------------------------------------------ *)
+(* DOM half: loading the records into the object model                                               *)
+
+Definition ok_err (e : exn) : Prop := is_lib_error e = true \/ e = EUnmodelled \/ e = EOracleMiss.
+
+(* what a property setter can raise *)
+Definition setter_err (e : exn) : Prop := e = ELibOptionValue \/ e = ELibChoice \/ e = EType \/ e = EAttribute.
+
+Lemma set_option_err : forall o n t c v e, set_option o n t c v = Err e -> setter_err e.
+Proof.
+  intros o n t c v e H. unfold set_option, setter_err in *.
+  destruct (negb (has_type t v)); [inversion H; auto|].
+  destruct c as [cs|]; [|discriminate].
+  destruct (in_strset v cs) as [[|]|e'] eqn:I.
+  - discriminate.
+  - destruct (nonempty cs); inversion H; auto.
+  - inversion H; subst. unfold in_strset in I. destruct v; inversion I; auto.
+Qed.
+
+Ltac setter_cases H :=
+  repeat match type of H with
+         | bind ?r _ = Err _ =>
+             let E := fresh "E" in destruct r eqn:E; cbn [bind] in H;
+             [try discriminate H | inversion H; subst; eapply set_option_err; eassumption]
+         | (if ?x then _ else _) = Err _ => destruct x
+         | (match ?x with _ => _ end) = Err _ => destruct x
+         end;
+  try discriminate H;
+  try (inversion H; subst; unfold setter_err; tauto).
+
+Lemma set_psec_err : forall s a v e, set_psec s a v = Err e -> setter_err e.
+Proof. intros s a v e H. unfold set_psec in H. cbv zeta in H. setter_cases H. Qed.
+Lemma set_msec_err : forall s a v e, set_msec s a v = Err e -> setter_err e.
+Proof. intros s a v e H. unfold set_msec in H. cbv zeta in H. setter_cases H. Qed.
+Lemma set_dsec_err : forall s a v e, set_dsec s a v = Err e -> setter_err e.
+Proof. intros s a v e H. unfold set_dsec in H. cbv zeta in H. setter_cases H. Qed.
+
+Ltac container_cases H :=
+  repeat match type of H with
+         | bind ?r _ = Err _ =>
+             let E := fresh "E" in destruct r eqn:E; cbn [bind] in H; [try discriminate H | inversion H; subst]
+         | (if ?x then _ else _) = Err _ => destruct x
+         | (match ?x with _ => _ end) = Err _ => destruct x
+         end;
+  try discriminate H;
+  eauto using set_option_err, set_psec_err, set_msec_err, set_dsec_err;
+  try (inversion H; subst; unfold setter_err; tauto).
+
+Lemma set_file_attr_err : forall f n v e, set_file_attr f n v = Err e -> setter_err e.
+Proof. intros f n v e H. unfold set_file_attr in H. container_cases H. Qed.
+Lemma set_change_attr_err : forall c n v e, set_change_attr c n v = Err e -> setter_err e.
+Proof. intros c n v e H. unfold set_change_attr in H. container_cases H. Qed.
+
+Lemma apply_attrs_err : forall {T} (set : T -> bytes -> wv -> res T),
+  (forall x k v e, set x k v = Err e -> setter_err e) ->
+  forall attrs x e, to_parse (apply_attrs set x attrs) = Err e -> is_lib_error e = true.
+Proof.
+  intros T set Hset. induction attrs as [|[k v] r IH]; intros x e H; cbn [apply_attrs] in H.
+  - discriminate.
+  - destruct (set x k v) as [x'|e'] eqn:E; cbn [unknown_to_lib bind] in H.
+    + eauto.
+    + apply Hset in E. unfold setter_err in E.
+      destruct E as [-> | [-> | [-> | ->]]]; cbn in H; inversion H; reflexivity.
+Qed.
+
+Lemma set_last_snoc : forall {A} (f : A -> res A) l x,
+  set_last f (l ++ [x]) = bind (f x) (fun y => Ok (l ++ [y])).
+Proof.
+  induction l as [|a l IH]; intros x; [reflexivity|].
+  cbn [app set_last]. destruct (l ++ [x]) eqn:E; [destruct l; discriminate|].
+  rewrite <- E, IH. destruct (f x); reflexivity.
+Qed.
+
+(* the cursor of the DOM reader is the reader's nesting depth, and the container it points at exists *)
+Definition DInv (d : nat) (tc : dtree * cursor) : Prop :=
+  match snd tc with
+  | AtMain => d = 0
+  | AtChange => d = 1 /\ exists cs c, d_changes (fst tc) = cs ++ [c]
+  | AtFile => d = 2 /\ exists cs c fs f, d_changes (fst tc) = cs ++ [c] /\ c_files c = fs ++ [f]
+  end.
+
+Lemma DInv_change : forall d t cur, DInv d (t, cur) -> 1 <= d -> exists cs c, d_changes t = cs ++ [c].
+Proof.
+  intros d t cur H Hd. unfold DInv in H. cbn [fst snd] in H. destruct cur.
+  - lia.
+  - destruct H as [_ H]; exact H.
+  - destruct H as [_ (cs & c & fs & f & H & _)]; eauto.
+Qed.
+
+Definition record_post (d' : nat) (r : res (dtree * cursor)) : Prop :=
+  match r with Ok tc' => DInv d' tc' | Err e => ok_err e end.
+
+Lemma apply_record_spec : forall d tc r d',
+  DInv d tc -> step_depth d r = Some d' -> record_post d' (apply_record tc r).
+Proof.
+  intros d [t cur] r d' HD HS. unfold apply_record. cbv zeta.
+  unfold step_depth, sec_main, sec_change, sec_file in HS. cbv zeta in HS.
+  destruct (beq (r_id r) GenSections.sec_main).
+  { inversion HS; subst. reflexivity. }
+  destruct (beq (r_id r) GenSections.sec_change).
+  { inversion HS; subst d'.
+    destruct (has_slot_key _); [right; left; reflexivity|].
+    destruct (to_parse (apply_attrs set_change_attr new_change _)) as [c|e] eqn:E; cbn [bind].
+    - cbn. split; [reflexivity|eauto].
+    - left. eapply (apply_attrs_err set_change_attr set_change_attr_err); eauto. }
+  destruct (beq (r_id r) GenSections.sec_file).
+  { destruct (1 <=? d) eqn:Q; [|discriminate]. apply Nat.leb_le in Q. inversion HS; subst d'.
+    destruct (has_slot_key _); [right; left; reflexivity|].
+    destruct (to_parse (apply_attrs set_file_attr new_file _)) as [f|e] eqn:E; cbn [bind].
+    - destruct (DInv_change _ _ _ HD Q) as (cs & c & Hcs). rewrite Hcs, set_last_snoc. cbn [bind].
+      cbn. split; [reflexivity|]. do 4 eexists. split; reflexivity.
+    - left. eapply (apply_attrs_err set_file_attr set_file_attr_err); eauto. }
+  unfold DInv in HD. cbn [fst snd] in HD.
+  destruct (r_payload r) as [|txt|b|j]; [discriminate| | |]; inversion HS; subst d'; clear HS.
+  - (* preamble text *)
+    destruct cur; cbn [bind].
+    + exact HD.
+    + destruct HD as [Hd (cs & c & Hcs)]. rewrite Hcs, set_last_snoc. cbn [bind].
+      cbn. split; [exact Hd|eauto].
+    + left; reflexivity.
+  - (* bytes *)
+    destruct (beq (r_id r) GenSections.sec_file_diff); [|left; reflexivity].
+    destruct cur; try (left; reflexivity).
+    destruct HD as [Hd (cs & c & fs & f & Hcs & Hfs)].
+    rewrite Hcs, set_last_snoc, Hfs, set_last_snoc. cbn [bind].
+    cbn. split; [exact Hd|]. do 4 eexists. split; reflexivity.
+  - (* metadata *)
+    destruct j; try (left; reflexivity).
+    destruct cur; cbn [bind].
+    + exact HD.
+    + destruct HD as [Hd (cs & c & Hcs)]. rewrite Hcs, set_last_snoc. cbn [bind].
+      cbn. split; [exact Hd|eauto].
+    + destruct HD as [Hd (cs & c & fs & f & Hcs & Hfs)].
+      rewrite Hcs, set_last_snoc, Hfs, set_last_snoc. cbn [bind].
+      cbn. split; [exact Hd|]. do 4 eexists. split; reflexivity.
+Qed.
+
+Lemma apply_records_spec : forall rs d tc d',
+  DInv d tc -> chain d rs = Some d' -> record_post d' (apply_records tc rs).
+Proof.
+  induction rs as [|r rs IH]; intros d tc d' HD HC; cbn [chain apply_records] in *.
+  - inversion HC; subst. exact HD.
+  - destruct (step_depth d r) as [d1|] eqn:S; [|discriminate].
+    pose proof (apply_record_spec d tc r d1 HD S) as R.
+    destruct (apply_record tc r) as [tc1|e]; cbn [bind record_post] in *; eauto.
+Qed.
+
+Theorem C08_dom_proof : forall orc data e, dom_read orc data = Err e ->
+  is_lib_error e = true \/ e = EUnmodelled \/ e = EOracleMiss.
+Proof.
+  intros orc data e H. unfold dom_read in H.
+  assert (0 < default_chunk) as Hc by (unfold default_chunk; lia).
+  destruct (read_all_spec orc default_chunk data Hc) as [T [d C]].
+  destruct (read_all orc default_chunk data) as [rs term]. cbn [fst snd] in *.
+  assert (DInv 0 (new_tree, AtMain)) as H0 by reflexivity.
+  pose proof (apply_records_spec rs 0 _ d H0 C) as R.
+  destruct (apply_records (new_tree, AtMain) rs) as [[t cur]|e']; cbn [record_post] in R.
+  - destruct term as [|l c|e'|]; cbn [term_post] in T.
+    + discriminate.
+    + inversion H; subst. left; reflexivity.
+    + inversion H; subst. right; exact T.
+    + contradiction.
+  - inversion H; subst. exact R.
 Qed.
